@@ -81,7 +81,7 @@ def _run_once(case, minimize, negate):
                 return sol[:i] + ((sol[i] + rng.choice([1, -1])) % 4,) + sol[i + 1:]
             if s == "anneal":
                 r = solvor.anneal(init, proxy, lambda sol: flip(sol, nrng), minimize=minimize, **pk, temperature=case.get("temperature", 10.0),
-                                  cooling=case.get("cooling", 0.95), max_iter=case["max_iter"], seed=seed)
+                                  cooling=case.get("cooling", 0.95), max_iter=case["max_iter"], seed=seed, **({"min_temp": case["min_temp"]} if "min_temp" in case else {}))
             elif s == "tabu_search":
                 def nbrs(sol):
                     out = []
@@ -205,6 +205,10 @@ def gen(rng, solver=None):
                     max_iter=rng.choice([0, 1, 3, 15, 60]))
         if s == "anneal":
             case.update(temperature=rng.choice([0.5, 10.0, 1000.0]), cooling=rng.choice([0.5, 0.95, 0.9995]))
+            if rng.random() < 0.6:
+                # the run ends through the temperature floor after a handful of steps, typically while the walk is still improving
+                case.update(temperature=rng.choice([0.5, 1.0, 4.0]), cooling=rng.choice([0.3, 0.5, 0.7]), min_temp=rng.choice([1e-3, 0.05, 0.2]),
+                            max_iter=rng.choice([15, 60]), init=[rng.choice([0, 3]) for _ in range(n)])
         if s in ("lns", "alns"):
             case.update(accept=rng.choice(["improving", "accept_all", "simulated_annealing", "simulated_annealing",
                                            "cb:never", "cb:alternate", "cb:worse_only", "cb:every_third"]), temperature=rng.choice([0.5, 5.0, 100.0]), segment_size=rng.choice([2, 5]))
